@@ -28,6 +28,13 @@ package tr
 // configured call may be marked Partial; operators are lifted (olift2, short-circuit oand / oor),
 // and a statement that evaluates such an expression matches on it, None giving the function's
 // Panic term.  Go `int` arithmetic (lengths, indices) is NOT wrapped; sized ints are.
+// Extensions used for the C15 loops: assignment to a receiver field (w.Updates = x), x++ / x--,
+// `for i := range X`, X[:E] (firstn), X[I] = E and X[I][c] = E on mapped array types (set_at),
+// float64 == / != (floats are carried as Z), and the error idiom
+//     if err := CALL; err != nil { return ... }
+// for a configured call with effects (LFunc.ErrCalls): a match on the call's result with one arm
+// per outcome (error: the if body; ok: the rest, with the modified state rebound; panic).
+// A range loop is a plain fold_left unless its body returns or may panic: then it is a loop_fold.
 // <atom>s are expressions the translator must not look into (interface calls, error values):
 // they are matched by their source text and replaced by a configured Coq term.
 // Anything outside the grammar is an error: the definition is then missing from the generated
@@ -81,8 +88,19 @@ type LFunc struct {
 	Returns    map[string]string // source text of the result list ("nil, err") -> Coq term; "" key unused
 	Result     string            // Coq result type
 	Panic      string            // Coq term for an index out of range
+	ErrCalls   map[string]*ErrCall // source text of CALL in `if err := CALL; err != nil {..}`
 	Partial    bool              // the function may panic: results are wrapped with RetWrap, loops use loop_fold
 	RetWrap    string            // format applied to a returned value, e.g. "(Some %s)"; default "%s"
+}
+
+// ErrCall describes a call with effects used in the idiom  if err := CALL; err != nil { body }.
+type ErrCall struct {
+	Term     string   // Coq term of the call
+	OkPat    string   // pattern of the no-error outcome; may rebind modified state variables
+	ErrPat   string   // pattern of the error outcome; binds the Coq variable of the Go error variable
+	ErrVar   string   // that Coq variable (becomes the value of the Go variable in the body)
+	PanicPat string   // optional pattern of the panic outcome
+	Modifies []string // Coq state variables rebound by OkPat
 }
 
 // LT is the translator state for one function.
@@ -94,6 +112,7 @@ type LT struct {
 	recv string
 	decl map[string]token.Pos // Go variable -> position of its declaration (for ordering state tuples)
 	nK   int
+	esc  bool // a return or a panic term was emitted (decides between fold_left and loop_fold)
 }
 
 func (t *LT) src(n ast.Node) string {
@@ -111,6 +130,11 @@ func deref(ty types.Type) types.Type {
 		return p.Elem()
 	}
 	return ty
+}
+
+func isFloatType(t types.Type) bool {
+	b, ok := t.Underlying().(*types.Basic)
+	return ok && b.Info()&types.IsFloat != 0
 }
 
 func namedName(ty types.Type) string {
@@ -132,7 +156,8 @@ func (t *LT) coqType(ty types.Type) (string, error) {
 		return "Z", nil
 	}
 	if sm, ok := t.cfg.Structs[namedName(ty)]; ok {
-		if _, isStruct := ty.Underlying().(*types.Struct); isStruct {
+		switch ty.Underlying().(type) {
+		case *types.Struct, *types.Array:
 			return sm.Coq, nil
 		}
 	}
@@ -239,7 +264,7 @@ func (t *LT) binop(e ast.Expr, op token.Token, x ast.Expr, a, b string) (string,
 			eq = fmt.Sprintf("(Bool.eqb %s %s)", a, b)
 		} else if isStringType(tx) {
 			eq = fmt.Sprintf("(String.eqb %s %s)", a, b)
-		} else if isIntType(tx) {
+		} else if isIntType(tx) || isFloatType(tx) {
 			eq = fmt.Sprintf("(Z.eqb %s %s)", a, b)
 		} else {
 			return "", t.errf(e, "== on %s", tx)
@@ -300,6 +325,12 @@ func (t *LT) exprP(e ast.Expr) (string, bool, error) {
 		}
 		if tv.Value != nil && tv.Value.Kind() == constant.String {
 			return CoqString(constant.StringVal(tv.Value)), false, nil
+		}
+		if tv.Value != nil && tv.Value.Kind() == constant.Float {
+			// floats are carried as Z: only integer-valued literals can be rendered
+			if iv := constant.ToInt(tv.Value); iv.Kind() == constant.Int {
+				return CoqZ(iv), false, nil
+			}
 		}
 		return "", false, t.errf(e, "unsupported literal")
 	case *ast.UnaryExpr:
@@ -416,6 +447,19 @@ func (t *LT) exprP(e ast.Expr) (string, bool, error) {
 			return "(get_at " + xs + " " + i + ")", true, nil
 		}
 		return "", false, t.errf(e, "unsupported index expression")
+	case *ast.SliceExpr:
+		if x.Low != nil || x.High == nil || x.Slice3 {
+			return "", false, t.errf(e, "only X[:E] is supported")
+		}
+		xs, err := t.expr(x.X)
+		if err != nil {
+			return "", false, err
+		}
+		h, err := t.expr(x.High)
+		if err != nil {
+			return "", false, err
+		}
+		return "(firstn (Z.to_nat " + h + ") " + xs + ")", false, nil
 	case *ast.CallExpr:
 		if id, ok := x.Fun.(*ast.Ident); ok {
 			switch id.Name {
@@ -529,6 +573,7 @@ func (t *LT) retTerm(k kont, v string) string {
 	if w == "" {
 		w = "%s"
 	}
+	t.esc = true
 	return k.ret(fmt.Sprintf(w, v))
 }
 
@@ -536,6 +581,7 @@ func (t *LT) panicTerm(k kont, n ast.Node) (string, error) {
 	if t.fn.Panic == "" {
 		return "", t.errf(n, "expression may panic but the function has no Panic term")
 	}
+	t.esc = true
 	return k.ret(t.fn.Panic), nil
 }
 
@@ -603,6 +649,22 @@ func (t *LT) assigned(l []ast.Stmt) []string {
 	}
 	for _, s := range l {
 		ast.Inspect(s, func(n ast.Node) bool {
+			if ifs, ok := n.(*ast.IfStmt); ok && ifs.Init != nil {
+				if ia, ok := ifs.Init.(*ast.AssignStmt); ok && len(ia.Rhs) == 1 {
+					if ec, ok := t.fn.ErrCalls[t.src(ia.Rhs[0])]; ok {
+						for _, m := range ec.Modifies {
+							set[m] = token.Pos(1)
+						}
+					}
+				}
+			}
+			if inc, ok := n.(*ast.IncDecStmt); ok {
+				if id, ok := inc.X.(*ast.Ident); ok && !local[id.Name] {
+					if v, ok := t.env[id.Name]; ok {
+						set[v] = t.decl[id.Name]
+					}
+				}
+			}
 			as, ok := n.(*ast.AssignStmt)
 			if !ok {
 				return true
@@ -692,6 +754,7 @@ func (t *LT) block(l []ast.Stmt, k kont) (string, error) {
 		}
 		key := strings.Join(parts, ", ")
 		if v, ok := t.fn.Returns[key]; ok {
+			t.esc = true
 			return k.ret(v), nil
 		}
 		if len(s.Results) == 1 {
@@ -745,6 +808,22 @@ func (t *LT) block(l []ast.Stmt, k kont) (string, error) {
 		return out + r, err
 	case *ast.AssignStmt:
 		return t.assign(s, k, rest)
+	case *ast.IncDecStmt:
+		id, ok := s.X.(*ast.Ident)
+		if !ok {
+			return "", t.errf(s, "unsupported ++/--")
+		}
+		old, err := t.expr(id)
+		if err != nil {
+			return "", err
+		}
+		op := "Z.add"
+		if s.Tok == token.DEC {
+			op = "Z.sub"
+		}
+		v := t.bind(id.Name, id.Pos())
+		r, err := rest()
+		return fmt.Sprintf("let %s := %s in\n  %s", v, t.wrapArith(id, fmt.Sprintf("(%s %s 1)", op, old)), r), err
 	case *ast.IfStmt:
 		return t.ifStmt(s, l[1:], k)
 	case *ast.RangeStmt:
@@ -756,6 +835,33 @@ func (t *LT) block(l []ast.Stmt, k kont) (string, error) {
 func (t *LT) ifStmt(s *ast.IfStmt, after []ast.Stmt, k kont) (string, error) {
 	// if [init;] C { A } [else E] ; after
 	wrapInit := func(body string) (string, error) { return body, nil }
+	if as, ok := s.Init.(*ast.AssignStmt); ok && len(as.Lhs) == 1 && len(as.Rhs) == 1 {
+		if ec, ok := t.fn.ErrCalls[t.src(as.Rhs[0])]; ok {
+			id, isId := as.Lhs[0].(*ast.Ident)
+			if !isId || s.Else != nil || t.src(s.Cond) != id.Name+" != nil" || !terminates(s.Body.List) {
+				return "", t.errf(s, "an effect call is only supported as  if err := CALL; err != nil { ...return }")
+			}
+			t.env[id.Name] = ec.ErrVar
+			a, err := t.block(s.Body.List, k)
+			if err != nil {
+				return "", err
+			}
+			delete(t.env, id.Name)
+			r, err := t.block(after, k)
+			if err != nil {
+				return "", err
+			}
+			out := fmt.Sprintf("match %s with\n  | %s => %s\n  | %s => %s", ec.Term, ec.ErrPat, a, ec.OkPat, r)
+			if ec.PanicPat != "" {
+				pn, err := t.panicTerm(k, s)
+				if err != nil {
+					return "", err
+				}
+				out += fmt.Sprintf("\n  | %s => %s", ec.PanicPat, pn)
+			}
+			return out + "\n  end", nil
+		}
+	}
 	if s.Init != nil {
 		as, ok := s.Init.(*ast.AssignStmt)
 		if !ok || as.Tok != token.DEFINE || len(as.Lhs) != 1 || len(as.Rhs) != 1 {
@@ -839,45 +945,59 @@ func (t *LT) rangeStmt(s *ast.RangeStmt, k kont, rest func() (string, error)) (s
 		return "", err
 	}
 	sv := t.assigned(s.Body.List)
-	val, ok := s.Value.(*ast.Ident)
-	if !ok {
-		return "", t.errf(s, "range without value variable")
+	xv := "_"
+	if s.Value != nil {
+		val, ok := s.Value.(*ast.Ident)
+		if !ok {
+			return "", t.errf(s, "unsupported range value")
+		}
+		if val.Name != "_" {
+			xv = t.bind(val.Name, val.Pos())
+		}
 	}
-	xv := t.bind(val.Name, val.Pos())
 	idx := ""
 	if key, ok := s.Key.(*ast.Ident); ok && key.Name != "_" {
 		idx = t.bind(key.Name, key.Pos())
 	}
-	hasReturn := false
-	ast.Inspect(s.Body, func(n ast.Node) bool {
-		if _, ok := n.(*ast.ReturnStmt); ok {
-			hasReturn = true
-		}
-		return true
-	})
-	if !hasReturn && !t.fn.Partial {
-		// plain fold over the state tuple
-		if len(sv) == 0 {
-			return "", t.errf(s, "loop without state")
-		}
+	// first try a plain fold over the state tuple; if the body returns or may panic, redo it as
+	// a loop_fold (the body yields LNext state | LRet result)
+	savedEsc, savedK := t.esc, t.nK
+	if len(sv) > 0 && !t.fn.Partial {
+		t.esc = false
 		body, err := t.block(s.Body.List, kont{fall: tuple(sv), cont: tuple(sv), ret: k.ret})
-		if err != nil {
-			return "", err
+		escaped := t.esc
+		t.esc = savedEsc
+		if err == nil && !escaped {
+			r, err := rest()
+			if err != nil {
+				return "", err
+			}
+			if idx == "" {
+				step := fmt.Sprintf("(fun st %s => %s)", xv, letTuple(sv, "st", body))
+				return letTuple(sv, fmt.Sprintf("fold_left %s %s %s", step, xs, tuple(sv)), r), nil
+			}
+			all := append([]string{idx}, sv...)
+			step := fmt.Sprintf("(fun st %s => %s)", xv,
+				letTuple(all, "st", letTuple(sv, "("+body+")", tuple(append([]string{"(Z.add " + idx + " 1)"}, sv...)))))
+			return letTuple(all, fmt.Sprintf("fold_left %s %s %s", step, xs, tuple(append([]string{"0"}, sv...))), r), nil
 		}
-		r, err := rest()
-		if err != nil {
-			return "", err
-		}
-		if idx == "" {
+		t.nK = savedK
+	} else if t.fn.Partial && len(sv) > 0 {
+		// same trial for functions that may panic elsewhere: a loop that cannot is still a plain fold
+		t.esc = false
+		body, err := t.block(s.Body.List, kont{fall: tuple(sv), cont: tuple(sv), ret: k.ret})
+		escaped := t.esc
+		t.esc = savedEsc
+		if err == nil && !escaped && idx == "" {
+			r, err := rest()
+			if err != nil {
+				return "", err
+			}
 			step := fmt.Sprintf("(fun st %s => %s)", xv, letTuple(sv, "st", body))
 			return letTuple(sv, fmt.Sprintf("fold_left %s %s %s", step, xs, tuple(sv)), r), nil
 		}
-		all := append([]string{idx}, sv...)
-		step := fmt.Sprintf("(fun st %s => %s)", xv,
-			letTuple(all, "st", letTuple(sv, "("+body+")", tuple(append([]string{"(Z.add " + idx + " 1)"}, sv...)))))
-		return letTuple(all, fmt.Sprintf("fold_left %s %s %s", step, xs, tuple(append([]string{"0"}, sv...))), r), nil
+		t.nK = savedK
 	}
-	// loop_fold: the body yields LNext state | LRet result
 	all := sv
 	next := tuple(sv)
 	init := tuple(sv)
@@ -892,6 +1012,7 @@ func (t *LT) rangeStmt(s *ast.RangeStmt, k kont, rest func() (string, error)) (s
 	if err != nil {
 		return "", err
 	}
+	t.esc = true
 	r, err := rest()
 	if err != nil {
 		return "", err
@@ -903,14 +1024,8 @@ func (t *LT) rangeStmt(s *ast.RangeStmt, k kont, rest func() (string, error)) (s
 	pat := tuple(all)
 	if len(all) == 0 {
 		pat = "_"
-	} else if len(all) > 1 {
-		pat = "(" + strings.Join(all, ", ") + ")"
 	}
-	lhs := "LNext " + pat
-	if len(all) > 1 {
-		lhs = "LNext " + pat
-	}
-	return fmt.Sprintf("match loop_fold %s %s %s with\n  | LRet r_ => r_\n  | %s => %s\n  end", step, xs, init, lhs, r), nil
+	return fmt.Sprintf("match loop_fold %s %s %s with\n  | LRet r_ => r_\n  | LNext %s => %s\n  end", step, xs, init, pat, r), nil
 }
 
 func (t *LT) assign(s *ast.AssignStmt, k kont, rest func() (string, error)) (string, error) {
@@ -981,8 +1096,30 @@ func (t *LT) assign(s *ast.AssignStmt, k kont, rest func() (string, error)) (str
 		}
 		return t.withValue(k, s, val, true, v, r)
 	}
+	if ix, ok := lhs.(*ast.IndexExpr); ok && op == 0 && vpartial {
+		// X[I] = E where E may panic: evaluate E, then the bounds-checked store
+		if _, isSlice := t.p.Info.Types[ix.X].Type.Underlying().(*types.Slice); isSlice {
+			xs, err := t.expr(ix.X)
+			if err != nil {
+				return "", err
+			}
+			i, err := t.expr(ix.Index)
+			if err != nil {
+				return "", err
+			}
+			pn, err := t.panicTerm(k, s)
+			if err != nil {
+				return "", err
+			}
+			r, err := rest()
+			if err != nil {
+				return "", err
+			}
+			return t.withValue(k, s, val, true, "x_", fmt.Sprintf("set_at %s %s (fun _ => x_) %s (fun %s =>\n  %s)", xs, i, pn, xs, r))
+		}
+	}
 	if vpartial {
-		return "", t.errf(s, "a panicking expression is only supported in x := E")
+		return "", t.errf(s, "a panicking expression is only supported in x := E and X[I] = E")
 	}
 	// m[k] = v on a map variable
 	if ix, ok := lhs.(*ast.IndexExpr); ok && op == 0 && t.cfg.MapSet != "" {
@@ -1013,7 +1150,71 @@ func (t *LT) assign(s *ast.AssignStmt, k kont, rest func() (string, error)) (str
 		v := t.bind(l.Name, l.Pos())
 		r, err := rest()
 		return fmt.Sprintf("let %s := %s in\n  %s", v, val, r), err
-	case *ast.SelectorExpr: // X[I].F = val
+	case *ast.IndexExpr: // X[I] = val   or   X[I][c] = val on a mapped array type
+		if op != 0 {
+			return "", t.errf(s, "unsupported op-assignment to an element")
+		}
+		pn, err := t.panicTerm(k, s)
+		if err != nil {
+			return "", err
+		}
+		if inner, ok := l.X.(*ast.IndexExpr); ok {
+			sm := t.structOf(inner)
+			tv := t.p.Info.Types[l.Index]
+			if sm == nil || tv.Value == nil {
+				return "", t.errf(s, "unsupported nested index assignment")
+			}
+			xs, err := t.expr(inner.X)
+			if err != nil {
+				return "", err
+			}
+			i, err := t.expr(inner.Index)
+			if err != nil {
+				return "", err
+			}
+			set, found := sm.setter(tv.Value.ExactString(), func(string) string { return val })
+			if !found || strings.ContainsAny(xs, " (") {
+				return "", t.errf(s, "unsupported nested index assignment")
+			}
+			r, err := rest()
+			return fmt.Sprintf("set_at %s %s %s %s (fun %s =>\n  %s)", xs, i, set, pn, xs, r), err
+		}
+		if _, isSlice := t.p.Info.Types[l.X].Type.Underlying().(*types.Slice); !isSlice {
+			return "", t.errf(s, "unsupported indexed assignment")
+		}
+		xs, err := t.expr(l.X)
+		if err != nil {
+			return "", err
+		}
+		if strings.ContainsAny(xs, " (") {
+			return "", t.errf(s, "indexed slice is not a variable")
+		}
+		i, err := t.expr(l.Index)
+		if err != nil {
+			return "", err
+		}
+		r, err := rest()
+		return fmt.Sprintf("set_at %s %s (fun _ => %s) %s (fun %s =>\n  %s)", xs, i, val, pn, xs, r), err
+	case *ast.SelectorExpr: // w.F = val (receiver field)  or  x.F = val (local struct)  or  X[I].F = val
+		if id, ok := l.X.(*ast.Ident); ok {
+			if id.Name == t.recv && t.recv != "" && op == 0 {
+				for _, f := range t.fn.RecvFields {
+					if f == l.Sel.Name {
+						r, err := rest()
+						return fmt.Sprintf("let w_%s := %s in\n  %s", f, val, r), err
+					}
+				}
+			}
+			if v, ok := t.env[id.Name]; ok && op == 0 {
+				if sm := t.structOf(id); sm != nil && sm.Ctor != "" {
+					set, found := sm.setter(l.Sel.Name, func(string) string { return val })
+					if found {
+						r, err := rest()
+						return fmt.Sprintf("let %s := (%s %s) in\n  %s", v, set, v, r), err
+					}
+				}
+			}
+		}
 		ix, ok := l.X.(*ast.IndexExpr)
 		if !ok {
 			return "", t.errf(s, "unsupported field assignment")
@@ -1050,11 +1251,12 @@ func (t *LT) assign(s *ast.AssignStmt, k kont, rest func() (string, error)) (str
 		if !found {
 			return "", t.errf(s, "field %s is not modelled", l.Sel.Name)
 		}
-		if t.fn.Panic == "" {
-			return "", t.errf(s, "indexed assignment needs a Panic term")
+		pn, err := t.panicTerm(k, s)
+		if err != nil {
+			return "", err
 		}
 		r, err := rest()
-		return fmt.Sprintf("set_at %s %s %s %s (fun %s =>\n  %s)", xs, i, set, t.fn.Panic, xs, r), err
+		return fmt.Sprintf("set_at %s %s %s %s (fun %s =>\n  %s)", xs, i, set, pn, xs, r), err
 	}
 	return "", t.errf(s, "unsupported left-hand side %T", lhs)
 }
